@@ -19,6 +19,7 @@ CHECKS = {
                 "completeness on antichains; exactness of the abs/product/or/xor gadgets and of the exclusion cut. The model is tied to the "
                 "code by comparing the model the real CBC wrapper holds with Lean's Shape.toIlp, by validating every real solutions() trace "
                 "with the executable validRun predicate on an exhaustively enumerated point set, and by regenerating the precision literals.",
+        "text_more": "Models with general integer variables are covered: a yielded assignment names binaries only (points_act_sublist). ",
         "design_ref": "DESIGN.md section 3.1, 3.3, 4 (C05)",
         "note": "Gurobi wrapper not modelled (not installed). The premise 'each solve returns a global optimum' is tested, not proved.",
         "technique": "Lean 4 proof (induction over the Run relation; linear arithmetic) + model-vs-CBC structural and trace correspondence",
@@ -62,6 +63,7 @@ CHECKS = {
                 "options-section round trip, --param items split at the first '='. Ties: parameter table regenerated from Profile.__init__; "
                 "Profile.update vs the model on every parameter x spelling class and random multi-updates; `aldy profile --param` -> YAML -> "
                 "Profile.load round trip through the real CLI code. A genuine defect (booleans) was repaired by a fix: commit.",
+        "text_more": "Whole dictionaries and the Profile.load route: update_dict_takes_value, load_explicit_wins / load_options_kept / load_param_takes_value (an explicit parameter - False, 0, 0.0 included - overrides the options section of the profile file); tie load_api. ",
         "design_ref": "DESIGN.md section 10.2-10.3 (as built), section 4 (C18), 5 (plan)",
         "note": "Python's float() is modelled on finite decimal literals only (tie-checked, no theorem); inf/nan excluded; int() of a native "
                 "non-integral float truncates (documented, not judged).",
@@ -87,6 +89,7 @@ CHECKS = {
                 "planted multiset among the best solutions when the planted structure is CN-optimal, every best solution's variants (with "
                 "multiplicity) equal to the simulated haplotypes. Three genuine defects found and repaired by fix: commits; one input class "
                 "(two indels <= 20 bp apart) is a known finding.",
+        "text_more": "A fifth of the samples are genotyped with indelpost=false; the structure clause is decided independently of the copy-number stage's own answer (region depths within a quarter copy of the planted structure). Five genuine defects found through this check were repaired by fix: commits. ",
         "design_ref": "DESIGN.md section 10.2-10.3 (as built), section 4 (C01), 5 (plan)",
         "note": "PARTIAL: feasibility of the planted point of the MINOR model and the premise Planted (the pileup of error-free reads is the "
                 "zero-error evidence) are decided per sample by evaluating the Lean definitions on the real stage inputs (translation "
@@ -184,6 +187,7 @@ CHECKS = {
                 "of spanning reads; depth is invariant under read permutation and under splitting a run or exchanging M/=/X; every observation "
                 "carries the binned mapping quality of its read. Ties: _parse_read on generated tuples and the whole Sample(...) on BAMs written by "
                 "pysam (flags, clips, shared names, both strands) vs the model; oracle from htslib's aligned pairs (depth and counts per position).",
+        "text_more": "Props/C06Table.lean: the table _make_coverage builds lists each allele of a site once and Coverage.total(pos) equals the number of reads spanning pos (makeTable_totalPos, total_is_spanning_reads). ",
         "design_ref": "DESIGN.md section 10.2-10.3 (as built), section 4 (C06) (plan)",
         "note": "PARTIAL at theorem level: the depth theorems hold for every locus at every position that is not part of a catalogued "
                 "multi-substitution site (mergeMnp_depth_away, depth_total_general: the merge step changes observations only at the positions of "
@@ -203,6 +207,7 @@ CHECKS = {
                 "neutral region is an error. Tie: real Sample/Profile.load/get_sam_profile_data on simulated read sets (indels, clips, flags, "
                 "custom neutral regions, both strands) vs the model in four metamorphic variants + profile YAML round trip; metamorphic oracle "
                 "on the real values.",
+        "text_more": "Linked to the pileup model: the sum _normalize_coverage takes over a region of Coverage.total(pos) equals the sum over the reads of the region bases each spans (region_sum_is_sum_of_depths, normalised_signal_is_read_overlap). ",
         "design_ref": "DESIGN.md section 10.2-10.3 (as built), section 4 (C07) (plan)",
         "note": "The consequence 'reported structure independent of depth' follows from invariance of the depth vector fed to the CN stage; "
                 "_filter_configs' absolute min_coverage threshold can differ between depths (documented hypothesis FilterStable, not a theorem). "
@@ -237,6 +242,7 @@ CHECKS = {
                 "collisions; oracle on the real Gene: reachability, single owner, distinct keys, functional split, partial = restriction, "
                 "configurations exist, equality between builds in RefSeq terms (under the evaluated hypothesis that every variant is mapped in "
                 "both builds).",
+        "text_more": "Props/C09Names.lean: the names handed out to the major alleles are pairwise different for any number of groups competing for one prefix or label (assignNames_nodup over the used_names invariant; nameStep / assignNames are the functions buildCatalogue runs). ",
         "design_ref": "DESIGN.md section 10.2-10.3 (as built), section 4 (C09) (plan)",
         "note": "PARTIAL at theorem level: name injectivity and the effect of dict overwrites/partials are decided per database by the "
                 "correspondence and the oracle, not by theorems. One known finding (insertion on a region boundary, opposite strands).",
@@ -301,6 +307,7 @@ CHECKS = {
                 "lists / phase table of real dumps vs the model; and the property itself on the real code: `aldy genotype --debug` through the real "
                 "command line in a fresh interpreter, archive replayed with `aldy genotype <archive>`, output files compared byte for byte and "
                 "solution objects (names, structures, scores, alleles) compared through the API, for one- and two-gene archives.",
+        "text_more": "Props/C17Stages.lean: every Coverage query the stages use is invariant under the reordering a dump introduces, the filters preserve that equivalence, the candidate filter selects the same alleles and the major / minor stage models built from the replayed evidence are EQUAL to those built from the original (replay_major_stage_equal, replay_minor_stage_equal, replay_depths_equal); the equivalence is decided on the real original and replayed Sample objects on every run (with and without indel realignment, under BAM and named profiles). ",
         "design_ref": "DESIGN.md section 10.2-10.3 (as built), section 4 (C17) (plan)",
         "note": "PARTIAL by nature: pickle/gzip/tar and process start are runtime behaviour covered only by the replay runs; invariance of the "
                 "stages under per-site permutation is proved for counts/filters (C15, C17) and carried to results by the replay tie.",
@@ -342,7 +349,7 @@ def main():
                 "evidence_file": f"evidence/{pid}.json",
                 "replay_cmd_template": f"./check {pid} --replay {{path}}",
                 "engine": "lean4-proof+correspondence",
-                "level_claimed": {"category": "proof", "text": c["text"], "design_ref": c["design_ref"]},
+                "level_claimed": {"category": "proof", "text": c["text"] + (" " + c["text_more"].strip() if c.get("text_more") else ""), "design_ref": c["design_ref"]},
                 "level_note": BASE_NOTE + c["note"],
                 "technique": c["technique"],
             })
